@@ -93,6 +93,8 @@ pub struct Profile {
     pub p_task_block: (u32, u32),
     /// maximum number of sequential peer sends inside one hook / handler
     pub max_peer_sends: u32,
+    /// chance that a plain tell / ask is wrapped in a caller-side timeout (cancellation)
+    pub p_cancel: (u32, u32),
 }
 
 impl Profile {
@@ -156,6 +158,7 @@ impl Profile {
             p_dep: (0, 1),
             p_task_block: (0, 1),
             max_peer_sends: 1,
+            p_cancel: (0, 1),
         }
     }
 }
@@ -182,12 +185,24 @@ impl<'a> Gen<'a> {
         if !allow_join {
             w[4] = 0;
         }
-        match self.ch.weighted(&w) {
+        let h = match self.ch.weighted(&w) {
             0 => How::Tell,
             1 => How::TellT(self.timeout()),
             2 => How::Ask,
             3 => How::AskT(self.timeout()),
             _ => How::AskJoin,
+        };
+        self.maybe_cancel(h)
+    }
+
+    fn maybe_cancel(&mut self, h: How) -> How {
+        if self.p.p_cancel.0 == 0 {
+            return h;
+        }
+        match h {
+            How::Tell if self.ch.chance(self.p.p_cancel.0, self.p.p_cancel.1) => How::TellC(self.timeout()),
+            How::Ask if self.ch.chance(self.p.p_cancel.0, self.p.p_cancel.1) => How::AskC(self.timeout()),
+            other => other,
         }
     }
 
@@ -204,7 +219,7 @@ impl<'a> Gen<'a> {
         };
         match mode {
             ClientMode::Task => {
-                if base != How::AskJoin && self.ch.chance(self.p.p_task_block.0, self.p.p_task_block.1) {
+                if base != How::AskJoin && base.cancel_after().is_none() && self.ch.chance(self.p.p_task_block.0, self.p.p_task_block.1) {
                     let t = self.timeout();
                     blockify(base, Some(t), false)
                 } else {
@@ -212,7 +227,7 @@ impl<'a> Gen<'a> {
                 }
             }
             _ => {
-                if base == How::AskJoin {
+                if base == How::AskJoin || base.cancel_after().is_some() {
                     return base;
                 }
                 match self.ch.weighted(&self.p.w_block) {
@@ -233,12 +248,13 @@ impl<'a> Gen<'a> {
     }
 
     fn peer_how(&mut self) -> How {
-        match self.ch.weighted(&self.p.w_peer_how) {
+        let h = match self.ch.weighted(&self.p.w_peer_how) {
             0 => How::Tell,
             1 => How::TellT(self.timeout()),
             2 => How::Ask,
             _ => How::AskT(self.timeout()),
-        }
+        };
+        self.maybe_cancel(h)
     }
 
     fn timeout(&mut self) -> Ms {
